@@ -43,6 +43,7 @@ pub const RULES: &[(&str, &[&str])] = &[
     ("callback.while_disabled", &["C01", "C07"]),
     ("callback.never_inserted", &["C01", "C15"]),
     ("callback.wrong_data", &["C01"]),
+    ("dispatch.event_after_remove", &["C06", "C01"]),
     ("composite.event_for_wrong_child", &["C01"]),
     ("ping.callback_without_ping", &["C01", "C03"]),
     ("ping.two_callbacks_one_dispatch", &["C03"]),
@@ -70,6 +71,8 @@ pub const RULES: &[(&str, &[&str])] = &[
     ("exec.poll_outside_dispatch", &["C10"]),
     ("exec.result_wrong", &["C10", "C01"]),
     ("exec.lost_wake", &["C10", "C02"]),
+    ("exec.timeout_early", &["C05", "C10"]),
+    ("exec.timeout_late", &["C05", "C10"]),
     ("exec.result_not_delivered", &["C10"]),
     ("exec.future_dropped_twice", &["C10", "C06"]),
     ("exec.future_leaked", &["C10", "C06"]),
